@@ -72,6 +72,37 @@ def structured_source(quick):
             if k in ("fn-nest", "else-if", "lambdas") and d > 10000:
                 continue
             out.append((f"nest-{k}-{d}", nest(k, d).encode()))
+    # shapes whose tree depth is not the parser's recursion depth (external review, round 3)
+    def left_chains(levels, links):
+        e = "1"
+        for _ in range(levels):
+            e = "(" + e + " + 1" * links + ")"
+        return e
+    for levels, links in ((9, 90), (50, 300), (90, 900), (99, 999)):
+        out.append((f"nest-left-chains-{levels * links}", left_chains(levels, links).encode()))
+    out.append(("nest-right-operand-chains-40000", ("1" + "".join(" + (1" + " * 2" * 400 for _ in range(100)) + ")" * 100).encode()))
+    for d in depths:
+        out.append((f"nest-assign-chain-{d}", ("let mut a = 1\n" + "a = " * d + "1").encode()))
+        out.append((f"nest-compound-assign-chain-{d}", ("let mut a = 1\n" + "a += " * d + "1").encode()))
+        out.append((f"nest-cast-chain-{d}", ("let a = 1\na" + " as int" * d).encode()))
+        out.append((f"nest-mixed-postfix-chain-{d}", ("let a = 1\na" + " as int.b[0]" * (d // 3)).encode()))
+    if 100000 not in depths:
+        out.append(("nest-cast-chain-100000", ("let a = 1\na" + " as int" * 100000).encode()))
+    for par in (10, 50, 95):
+        inner = "(" * par + "1" + ")" * par
+        lvl2 = '"{' + inner + '}"'
+        out.append((f"nest-fmt-in-fmt-{par}", ('let x = "{' + "(" * par + lvl2 + ")" * par + '}"\nx').encode()))
+        out.append((f"nest-fmt-chain-in-fmt-{par}", ('let x = "{' + left_chains(par, par * 9) + ' + "{' + left_chains(par, par * 9) + '}"}"\nx').encode()))
+    out += [
+        ("cyclic-vec-print", b"let v = Vec[null]\nv.push(v)\nprint(v)"),
+        ("cyclic-array-print", b"let a = Array[null]\na[0] = a\nprint(a)"),
+        ("cyclic-vec-interpolate", b'needs std.io\nlet v = Vec[null]\nv.push(v)\nio.println("{v}")'),
+        ("cyclic-vec-to-string", b"needs std.io\nlet v = Vec[null]\nv.push(v)\nio.println(v.to_string())"),
+        ("cyclic-two-vecs-print", b"let v = Vec[null]\nlet w = Vec[v]\nv.push(w)\nprint(v)\nprint(w)"),
+        ("cyclic-vec-result", b"let v = Vec[null]\nv.push(v)\nv"),
+        ("cyclic-vec-compare", b"let v = Vec[null]\nv.push(v)\nlet w = Vec[null]\nw.push(w)\nprint(v == w)"),
+        ("deep-vec-print", b"let mut v = Vec[null]\nlet mut i = 0\nwhile i < 5000 {\n  let w = Vec[null]\n  w.push(v)\n  v = w\n  i = i + 1\n}\nprint(v)"),
+    ]
     big = 20000 if quick else 1000000
     out += [
         ("huge-int", ("let a = " + "9" * big).encode()), ("huge-float", ("let a = 1." + "0" * big + "e999999").encode()),
@@ -193,6 +224,11 @@ def structured_aasm(seeds):
         ("aasm-nested-chain-200000", aasm_chain(200000)), ("aasm-nested-wide", aasm_wide(5000)),
         ("aasm-nested-count-huge", hd.replace(b".registers 4", b".registers 4\n  .nested 4000000000") + b"  .code\n    0000: Return0\n"),
         ("aasm-nested-negative", hd.replace(b".registers 4", b".registers 4\n  .nested -5") + b"  .code\n    0000: Return0\n"),
+    ] + [
+        (f"aasm-foreach-offset-{op}-{off}", hd.replace(b".registers 4", b".registers 6") + b'  .constants\n    0: string "h\xc3\xa9llo \xf0\x9f\x98\x80"\n  .code\n'
+         + b"    0000: LoadK     r3, 0\n    0001: LoadI     r2, %d\n    0002: %s r1, 1\n    0003: Return0\n    0004: Return0\n" % (off, op.encode()))
+        for op in ("StringForLoop", "VecForLoop", "ArrayForLoop") for off in (0, 1, 2, 3, 8, 9, 10, -1, 32767)
+    ] + [
         ("aasm-deep-label-chain", hd + b"  .code\n" + b"".join(b"  L%d:\n    %04d: Jump L%d\n" % (i, i, i + 1) for i in range(3000)) + b"  L3000:\n    3000: Return0\n"),
     ]
     return out + [(f"aasm-seed-{i}", s) for i, s in enumerate(seeds[:6])]
